@@ -32,10 +32,11 @@ class ASTWalker:
     def __walk(self, node: MypyFile | ClassDef | Decorator | FuncDef | AssignmentStmt, visited_nodes: set) -> None:
         # We ignore decorators and just take their inner functions, since we can get decorator information from the
         # function node too
+        if isinstance(node, OverloadedFuncDef):
+            # Overloads are represented by their implementation; a property with a setter has none, there we take the getter
+            node = node.impl if node.impl is not None else node.items[0]
         if isinstance(node, Decorator):
             node = node.func
-        elif isinstance(node, OverloadedFuncDef):
-            node = node.impl
 
         if node in visited_nodes:  # pragma: no cover
             raise AssertionError("Node visited twice")
@@ -49,7 +50,9 @@ class ASTWalker:
         if isinstance(node, MypyFile):
             definitions = get_mypyfile_definitions(node)
             child_nodes = [
-                _def for _def in definitions if _def.__class__.__name__ in {"FuncDef", "ClassDef", "Decorator"}
+                _def
+                for _def in definitions
+                if _def.__class__.__name__ in {"FuncDef", "ClassDef", "Decorator", "OverloadedFuncDef"}
             ]
         elif isinstance(node, ClassDef):
             definitions = get_classdef_definitions(node)
